@@ -302,10 +302,6 @@ impl TypeDeclarationStatement {
     /// Returns a mutable reference to the last token for this statement,
     /// creating it if missing.
     pub fn mutate_last_token(&mut self) -> &mut Token {
-        // Use '=' as structural tail; avoid walking type tree
-        if self.tokens.is_none() {
-            self.mutate_first_token();
-        }
-        &mut self.tokens.as_mut().unwrap().equal
+        self.r#type.mutate_last_token()
     }
 }
